@@ -16,7 +16,7 @@ from fractions import Fraction as Fr
 from lib.rat import R, F, close, dev
 
 ID = "C11"
-QUICK_N = 2400
+QUICK_N = 12000
 THOROUGH_N = 150000
 QUICK_BUDGET_S = 70
 THOROUGH_BUDGET_S = 900
@@ -136,7 +136,7 @@ def gen_changes(rng, kind):
     cs = [dict(bpm=R(rand_bpm(rng)), met=R(met), measure=0, beat=R(0))]
     pm, pb = 0, Fr(0)            # position of the previous change
     for i in range(1, n):
-        k = kind if kind != "mixed" else rng.choice(["grid", "near_measure", "near_beat", "tiny", "seated", "dup"])
+        k = kind if kind != "mixed" else rng.choice(["grid", "grid", "near_measure", "near_measure", "near_beat", "tiny", "seated", "seated", "dup"])
         if k == "grid":
             d = rng.choice(DENS)
             dist = Fr(rng.randrange(1, int(6 * met * d) + 2), d)
@@ -181,7 +181,8 @@ def gen(rng, tier, i):
     mode = "exact" if rng.random() < 0.7 else "float"
     if r < 0.12:
         return dict(claim="reseat", mode="exact", t0=R(0), cs=hb_case(rng.randrange(hb_count())))
-    kind = rng.choice(["grid", "grid", "near_measure", "near_measure", "near_beat", "tiny", "seated", "mixed", "mixed", "mixed"])
+    kind = rng.choice(["grid", "grid", "grid", "near_measure", "near_measure", "near_measure", "near_beat", "tiny", "seated",
+                       "mixed", "mixed", "mixed", "mixed"])
     cs = gen_changes(rng, kind)
     if rng.random() < 0.12 and len(cs) > 2:
         tail = cs[1:]
@@ -364,7 +365,8 @@ def run(case, drv):
     tol = R(0) if mode == "exact" else TOL_FLOAT
     dom = drv.call("c11.dom", cs=jcs, thr=THR)["ok"]
     tags = [mode, claim] + sorted(set(dom["classes"]))
-    in_dom = dom["wf"] and dom["first_zero"] and dom["no_beat_extend"] and dom["no_tiny_gap"] and dom["met_ok"]
+    # = the hypotheses `Dom thr l` of Props/C11.lean (the theorems are stated for ascending input)
+    in_dom = dom["sorted"] and dom["wf"] and dom["first_zero"] and dom["no_beat_extend"] and dom["no_tiny_gap"] and dom["met_ok"]
     quantified = dom["wf"] and dom["first_zero"] and dom["met_ok"]        # inside the property's own quantifier
     spec_inp, spec_t0 = jcs, t0x
     impl_tm0 = None
